@@ -108,6 +108,15 @@ CLAIMED["C16"] = dict(cat="other", technique="symbolic model of the std::vector 
         "selected. The wide-gap/high-frequency limit and sub-cutoff suppression of the parallel-plates model and finiteness of the Airy sums are numerical and NOT decided.",
    note="Positivity assumptions on parameters as documented; exact arithmetic. The length of a file impedance is handled under C17.",
    ref="DESIGN.md §3 C16")
+CLAIMED["C09"] = dict(cat="other", technique="per-bunch subscript analysis and formula normal forms from the AST (symbolic accumulators), loop-range coverage, must-reach on the constructor CFG",
+   text="Decides for every bunch count and grid size: in all moment/normalisation routines every subscript in a bunch dimension inside the bunch loop is the loop's own index "
+        "(no dependence on another bunch's data); mean and variance are (sum_i P[a][n][i]*q_a(i)^k-centred)*delta_a/filling[n] with one axis a throughout and the mean refreshed first; "
+        "filling[n] = <P[0][n], ws>, projections are Simpson-weighted sums with weights h/3*{1,4,2,..,4,1}; normalize multiplies every cell of bunch n by filling_set[n]/filling[n] or "
+        "zeroes an empty bucket over the full ranges (with linearity of the integral this gives the post-normalisation integral filling_set[n]); the copy constructor passes "
+        "(axis, oclh, charge, current, filling_set, 1, data) in their roles and the delegated constructor copies all values and recomputes both projections and the integral on "
+        "every path. The discretisation error of the moments is NOT decided.",
+   note="Exact arithmetic; relies on the size lemma nx==ny (one weight vector for both axes). OpenCL path not analysed.",
+   ref="DESIGN.md §3 C09")
 NOT_YET = "check not built yet in this round (static rule designed in DESIGN.md §3, not implemented)"
 NA = {}
 
